@@ -172,9 +172,13 @@ package types
 // ("nopanic dryrun": a panic site whose guard depends on the proposal content only and that lies on every
 // nil-returning path is covered by the governance submission dry-run, DESIGN section 8 C15 tier ii)
 // verif:func (ClientState).Initialize
+// the installed consensus state is the one of the client's own header (its root is what pruning looks the header up by)
+//@ ensures [consensus-state-of-the-header] result == nil ==> istype(state, *ConsensusState) && bytes.Equal(as(state, *ConsensusState).Root, cs.Header.ToEthHeader().Root.Bytes()) && as(state, *ConsensusState).Height == cs.Header.Height
 //@ nopanic dryrun
 //@ modifies store
 
 // verif:func (ClientState).UpgradeState
+// the installed consensus state is the one of the client's own header (its root is what pruning looks the header up by)
+//@ ensures [consensus-state-of-the-header] result == nil ==> istype(state, *ConsensusState) && bytes.Equal(as(state, *ConsensusState).Root, cs.Header.ToEthHeader().Root.Bytes()) && as(state, *ConsensusState).Height == cs.Header.Height
 //@ nopanic dryrun
 //@ modifies store
